@@ -264,7 +264,7 @@ P('C13', claimed=True, level='other',
               'immutability and seeded determinism/support of random patterns are contracts of their own.'),
   level_note='Bounded: first 64 items; corners the documentation leaves open are left unspecified and listed in notes.')
 
-P('C14', claimed=True, level='other', contracts=['seq_event_keys'], drivers=['vf.drivers.C14'],
+P('C14', claimed=True, level='other', contracts=['seq_event_keys', 'seq_ppar'], drivers=['vf.drivers.C14'],
   level_text=('The key chains are under contract (pyvc, all numeric values, any scale/tuning as uninterpreted '
               'degree_to_key / spo / octave_ratio): EventDict.__call__ (given value, else key function called '
               'with the event, else default) and every chain function of PitchKeys, DurationKeys and '
@@ -276,7 +276,10 @@ P('C14', claimed=True, level='other', contracts=['seq_event_keys'], drivers=['vf
               'exactly the controls of the description that the event defines (cached parameters reused unless '
               'playing, defaults without a description, gate dropped iff gated and not kept); the player step '
               'EventStreamPlayer._play_and_delta plays once iff not muted and not a rest and returns the delta as a '
-              'number. Bounded: key resolution compared with the documented chains '
+              'number; Ppar.__embed__ keeps every child on its own timeline (re-queued at now + its own delta), '
+              'replaces the yielded event\'s delta by the time until the next event of any child, inserts a rest of '
+              'exactly that length when a child ends, and moves its clock to that time in both cases (loop '
+              'invariant over the abstract queue of C09). Bounded: key resolution compared with the documented chains '
               'for all key subsets x 3 values x 3 scales on the real Scale/Tuning classes; played events and '
               'event stream players checked on the NRT score (one /s_new at logical time + latency with fresh '
               'id and the defined controls, gate-off at + sustain iff gated, rests send nothing, timelines of '
